@@ -69,3 +69,53 @@ Print Assumptions C01_monitor_partial.
 Theorem C01_monitor_refuted_F24 : exists i, MT i = true /\ MP i (mobserve i) = false.
 Proof. exact monitor_refuted_F24. Qed.
 Print Assumptions C01_monitor_refuted_F24.
+
+(* ---- operator level (the whole task flow, Op_Model): C01_OpProofs ---- *)
+From Verif Require Import C01_OpProofs.
+From Verif Require Op_Model Op_Corr Op_Spec C01_OpSpec.
+
+(* The operator-level predicate of C01 (C01_OpSpec.P_op) holds of the operator model's own
+   observations for EVERY well-formed configuration and EVERY sequence of actions (ticks,
+   cluster events, successful and failed ends of executions, back-off delays, shutdown): a
+   monitor becomes unlocked only by the successful end of a main-queue execution whose task
+   carries it (or because its binding is exempt from Synchronization), after such an end every
+   monitor the task carries IS unlocked, and every Event context - queued or shown to a hook -
+   belongs to an unlocked monitor. *)
+Theorem C01_op_P_holds : forall cfg acts,
+  Op_Spec.wf_config cfg = true ->
+  Op_Model.has_queue (Op_Model.boot_queues cfg) Op_Model.no_queue = false ->
+  C01_OpSpec.P_op (cfg, acts, Op_Corr.model_obs (cfg, acts, [])) = true.
+Proof. exact C01_OpProofs.P_holds. Qed.
+Print Assumptions C01_op_P_holds.
+
+(* non-vacuity: three hooks (one v0), kubernetes bindings in the main queue and in named
+   queues, grouped and ungrouped, one exempt from Synchronization (2), one allowing failure
+   (7); 29 actions: a tick and an event before Boot and while locked, an onStartup failure
+   with a back-off delay (FinishWait / Elapse), a failed Synchronization that is retried
+   (nothing unlocked), a Synchronization that fails but allows failure (7 unlocked), Events
+   arriving and being handed over after the unlock, shutdown with executions open.  The
+   hypotheses hold; the unlocked set grows as the clauses say; after step 18 two hooks are
+   shown Event contexts (kind code 2) of the unlocked bindings 1 and 7. *)
+Example C01_op_hyp_met :
+  let cfg :=
+    [Op_Model.mkHook 1 false (Some 1%Z)
+       [Op_Model.mkKb 1 0 0 false true 1; Op_Model.mkKb 2 5 7 true false 2; Op_Model.mkKb 3 0 7 false true 3]
+       [Op_Model.mkSb 4 5 0 false 1];
+     Op_Model.mkHook 2 true None [Op_Model.mkKb 5 0 0 false true 5] [Op_Model.mkSb 6 0 0 true 1];
+     Op_Model.mkHook 3 false (Some 0%Z) [Op_Model.mkKb 7 6 0 true true 7] []] in
+  let acts :=
+    [Op_Model.Tick 1; Op_Model.Boot; Op_Model.KubeEv 1 1; Op_Model.Finish 0 true; Op_Model.FinishWait 0;
+     Op_Model.KubeEv 2 1; Op_Model.Elapse 0; Op_Model.Finish 0 true; Op_Model.Finish 0 false;
+     Op_Model.KubeEv 1 2; Op_Model.Finish 0 true; Op_Model.KubeEv 1 3; Op_Model.KubeEv 2 4;
+     Op_Model.KubeEv 3 5; Op_Model.Finish 0 true; Op_Model.Finish 5 true; Op_Model.KubeEv 7 6;
+     Op_Model.Finish 0 false; Op_Model.KubeEv 7 7; Op_Model.Finish 0 true; Op_Model.Tick 1;
+     Op_Model.Finish 6 false; Op_Model.FinishWait 6; Op_Model.Finish 0 true; Op_Model.Elapse 6;
+     Op_Model.Stop; Op_Model.KubeEv 5 8; Op_Model.Finish 6 true; Op_Model.Finish 5 true] in
+  let obs := Op_Corr.model_obs (cfg, acts, []) in
+  Op_Spec.wf_config cfg = true /\
+  Op_Model.has_queue (Op_Model.boot_queues cfg) Op_Model.no_queue = false /\
+  map Op_Corr.so_unlocked obs
+  = repeat [] 10%nat ++ repeat [1; 2] 4%nat ++ repeat [1; 2; 3; 5] 3%nat ++ repeat [1; 2; 3; 5; 7] 12%nat /\
+  Op_Corr.so_execs (nth 18%nat obs Op_Spec.empty_obs)
+  = [Op_Corr.mkEO 0 1 [(1, 2, 0, 3)]; Op_Corr.mkEO 6 3 [(7, 2, 0, 7)]].
+Proof. vm_compute. repeat split. Qed.
